@@ -33,8 +33,8 @@ Proof.
     { intros H. injection H as <- <-. reflexivity. }
     destruct (need <=? len c) eqn:E1.
     { intros H. injection H as <- <-. destruct (need =? len c); reflexivity. }
-    destruct (read_full_aux (need - len c) true cs t) as [[r e] rest0] eqn:R.
-    intros H. injection H as <- -> <-. rewrite (IH _ _ true _ _ _ R). reflexivity.
+    destruct (read_full_aux (need - len c) (got || negb (len c =? 0)) cs t) as [[r e] rest0] eqn:R.
+    intros H. injection H as <- -> <-. rewrite (IH _ _ (got' || negb (len c =? 0)) _ _ _ R). reflexivity.
 Qed.
 
 Lemma read_full_up need s b s' : read_full need s = ((b, None), s') -> read_full need (up s) = ((b, None), up s').
